@@ -1,4 +1,5 @@
 import BlochVerif.Gc.Model
+import BlochVerif.Life.Model
 /-! `heap <ops> <schedule>`: the heap machine's output under a collection schedule (none | all | hex bitmask). -/
 namespace Driver
 open BlochVerif.Gc
@@ -36,5 +37,13 @@ def heapLine (ops sched : String) : String :=
   match (if ops == "-" then some [] else (ops.splitOn ";").mapM parseHeapOp), parseSched sched with
   | some os, some f => "trace " ++ "|".intercalate (runOps f os)
   | _, _ => "bad-op"
+
+/-- `life <ops>`: output under reference counting (no collection), then the destructor lines of the end of `main` -/
+def lifeLine (ops : String) : String :=
+  match (if ops == "-" then some [] else (ops.splitOn ";").mapM parseHeapOp) with
+  | some os =>
+    let s := BlochVerif.Life.runOps os
+    "trace " ++ "|".intercalate s.out ++ " ## " ++ "|".intercalate (BlochVerif.Life.finalDestructors s)
+  | none => "bad-op"
 
 end Driver
